@@ -1035,3 +1035,112 @@ Proof.
   intros r a H. split; [apply ring_new_panics; auto|].
   split; [apply set_next_station_panics; auto|apply remove_station_panics; auto].
 Qed.
+
+(* ------------------------------------------------------------------ soundness of the executable oracles
+   (Model/LasOracle.v: c02_step_ok, c02_nsps_ok) with respect to the model: every step of the model
+   passes them, so an ORACLE-FAIL on the crate's output is a deviation from the proved behaviour. *)
+
+Lemma ready_state : forall r, ready_for_ring r = state_eqb (r_state r) LasValid.
+Proof. intros r. unfold ready_for_ring. destruct (r_state r); reflexivity. Qed.
+
+Lemma list_eqb_refl : forall l, list_eqb l l = true.
+Proof. intros. apply list_eqb_eq. reflexivity. Qed.
+
+Lemma state_eqb_refl : forall s, state_eqb s s = true.
+Proof. destruct s; reflexivity. Qed.
+
+Lemma obs_eqb_refl : forall o, obs_eqb o o = true.
+Proof.
+  intros [s rd n p l]. unfold obs_eqb. simpl.
+  rewrite !Z.eqb_refl, list_eqb_refl, Bool.eqb_reflx. destruct s as [s|]; simpl; [rewrite state_eqb_refl|]; reflexivity.
+Qed.
+
+Lemma verifiesb_spec : forall las sa da, verifiesb (las_ones las) sa da = true <-> verifies las sa da.
+Proof.
+  intros las sa da. unfold verifiesb, verifies.
+  rewrite !andb_true_iff, !existsb_eqb_In, !In_las_ones, forallb_forall. split.
+  - intros [[A B] C]. split; auto. split; auto. intros x Hx Q.
+    apply In_las_ones in Hx. specialize (C x Hx). apply negb_true_iff in C.
+    apply strictly_betweenb_spec in Q. congruence.
+  - intros [A [B C]]. split; auto. intros x Hx. apply In_las_ones in Hx. apply negb_true_iff.
+    destruct (strictly_betweenb sa da x) eqn:G; auto. apply strictly_betweenb_spec in G. exfalso. apply (C x); auto.
+Qed.
+
+Lemma ones_set_true : forall las a, 0 <= a < Z.of_nat (length las) ->
+  las_ones (set_nth las (Z.to_nat a) true) = insert_sorted a (las_ones las).
+Proof.
+  intros las a Ha. apply sorted_ext; [apply las_ones_sorted|apply sorted_insert, las_ones_sorted|].
+  intros x. rewrite In_las_ones, In_insert_sorted, In_las_ones. unfold active.
+  rewrite activeb_set by auto. destruct (Z.eqb_spec x a); intuition congruence.
+Qed.
+
+Lemma ones_set_false : forall las a, 0 <= a < Z.of_nat (length las) ->
+  las_ones (set_nth las (Z.to_nat a) false) = filter (fun x => negb (x =? a)) (las_ones las).
+Proof.
+  intros las a Ha. apply sorted_ext; [apply las_ones_sorted|apply sorted_filter, las_ones_sorted|].
+  intros x. rewrite In_las_ones, filter_In, In_las_ones, negb_true_iff. unfold active.
+  rewrite activeb_set by auto. destruct (Z.eqb_spec x a); intuition congruence.
+Qed.
+
+Definition op_dom (o : op) : Prop :=
+  match o with OpW sa da => 0 <= sa /\ 0 <= da | _ => True end.
+
+Lemma step_oracle_sound : forall r o r',
+  length (r_las r) = 128%nat -> 0 <= r_ts r < 128 -> op_dom o -> step r o = Ok r' ->
+  c02_step_ok (r_ts r) (observe r) o (observe r') = true.
+Proof.
+  intros r o r' W Ht D E. unfold c02_step_ok, observe. cbn [o_state o_ready o_las o_ns o_ps].
+  destruct (debug_active r) as [l1| |]; auto. destruct (debug_active r') as [l2| |]; auto.
+  rewrite !ready_state, Bool.eqb_reflx. cbn [andb].
+  destruct o as [sa da| |a|a]; simpl in E, D.
+  - destruct D as [D1 D2].
+    destruct (witness_cases r sa da r' W D1 D2 E) as [[B Q]|[B Q]].
+    + subst r'. rewrite B. destruct (r_state r); try apply obs_eqb_refl; reflexivity.
+    + rewrite B. unfold bad_addrb in B. apply orb_false_iff in B. destruct B as [B1 B2].
+      apply Z.ltb_ge in B1. apply Z.ltb_ge in B2.
+      assert (Wr : is_wrapb (sa, da) = (da <=? sa)).
+      { unfold is_wrapb. destruct (Z.leb_spec sa 125); destruct (Z.leb_spec da 125); try lia; reflexivity. }
+      rewrite Wr in Q.
+      assert (LA : las_ones (r_las (upd r sa da)) = las_after_pass (las_ones (r_las r)) sa da).
+      { destruct (upd_fields r sa da) as [L _]. rewrite L. apply ones_las_after; auto; lia. }
+      assert (SU : r_state (upd r sa da) = r_state r) by apply upd_fields.
+      destruct (r_state r) eqn:St.
+      * subst r'. destruct (da <=? sa); simpl; rewrite ?St; reflexivity.
+      * subst r'. destruct (da <=? sa); cbn [with_state r_las r_state]; rewrite LA, list_eqb_refl, ?SU; reflexivity.
+      * destruct Q as [[V Q]|[V Q]].
+        -- rewrite (proj2 (verifiesb_spec _ _ _) V). subst r'.
+           destruct (da <=? sa); cbn [with_state r_las r_state]; rewrite list_eqb_refl, ?St; reflexivity.
+        -- destruct (verifiesb (las_ones (r_las r)) sa da) eqn:VB;
+             [exfalso; apply V; apply verifiesb_spec; exact VB|].
+           subst r'. cbn [with_state r_las r_state]. rewrite LA, list_eqb_refl. reflexivity.
+      * subst r'. rewrite SU, LA, list_eqb_refl. cbn [state_eqb andb].
+        destruct (verifiesb (las_ones (r_las r)) sa da) eqn:VB; auto. cbn [negb orb].
+        apply verifiesb_spec in VB. rewrite <- LA. destruct (upd_fields r sa da) as [L _]. rewrite L.
+        rewrite las_after_verified by (auto; lia). apply list_eqb_refl.
+  - inversion E; subst r'. cbn [claim_token with_state r_state r_las].
+    destruct (r_state r); cbn [state_eqb andb]; try reflexivity; apply list_eqb_refl.
+  - destruct (Z_le_dec 0 a) as [A1|A1]; [|rewrite set_next_station_panics in E by lia; discriminate].
+    destruct (Z_lt_dec a 128) as [A2|A2]; [|rewrite set_next_station_panics in E by lia; discriminate].
+    rewrite set_next_station_ok in E by (auto; lia). inversion E; subst r'. clear E.
+    set (r1 := mkRing (set_nth (r_las r) (Z.to_nat a) true) (r_state r) (r_ts r) (r_ns r) (r_ps r)).
+    destruct (upd_fields r1 (r_ts r) a) as [L [S _]]. rewrite S, L. unfold r1. cbn [r_state r_las].
+    rewrite ones_las_after by (rewrite ?set_nth_length; auto; lia).
+    rewrite ones_set_true by (rewrite W; lia).
+    destruct (r_state r); cbn [state_eqb andb]; try reflexivity; apply list_eqb_refl.
+  - destruct (Z_le_dec 0 a) as [A1|A1]; [|rewrite remove_station_panics in E by lia; discriminate].
+    destruct (Z_lt_dec a 128) as [A2|A2]; [|rewrite remove_station_panics in E by lia; discriminate].
+    rewrite remove_station_ok in E by lia. inversion E; subst r'. clear E.
+    unfold update_next_previous. cbn [r_state r_las].
+    rewrite ones_set_false by (rewrite W; lia).
+    destruct (r_state r); cbn [state_eqb andb]; try reflexivity; apply list_eqb_refl.
+Qed.
+
+Lemma nsps_oracle_sound : forall ts ops r0 r, ring_new ts = Ok r0 -> run r0 ops = Ok r ->
+  c02_nsps_ok ts (observe r) = true.
+Proof.
+  intros ts ops r0 r E0 E. destruct (ns_ps_invariant ts ops r0 r E0 E) as [_ [N P]].
+  unfold c02_nsps_ok, observe. cbn [o_state o_las o_ns o_ps].
+  assert (Q : cyc_nextb (las_ones (r_las r)) ts (r_ns r) && cyc_prevb (las_ones (r_las r)) ts (r_ps r) = true).
+  { apply andb_true_iff. split; [apply cyc_nextb_spec|apply cyc_prevb_spec]; auto. }
+  destruct (debug_active r); auto. destruct (r_state r); auto.
+Qed.
